@@ -90,6 +90,13 @@ class IndexExpander(ReuseTransformer):
 
         return x._ufl_class_(x.value())
 
+    def variable(self, x):
+        """Apply to variable."""
+        # The expansion depends on the current component and index
+        # values, so the label keyed cache of reuse_variable cannot be
+        # used here: expand the expression the variable represents.
+        return self.visit(x.ufl_operands[0])
+
     def conditional(self, x):
         """Apply to conditional."""
         c, t, f = x.ufl_operands
